@@ -33,10 +33,12 @@ func Replay(path string) int {
 	res := ck.Worker(v.Detail.Task)
 	fmt.Printf("%s\n", res)
 	var r struct {
-		Viol []string `json:"viol"`
+		Viol  []string          `json:"viol"`
+		Hang  []string          `json:"hang"`
+		Viols []json.RawMessage `json:"viols"`
 	}
 	json.Unmarshal(res, &r)
-	if len(r.Viol) > 0 {
+	if len(r.Viol) > 0 || len(r.Viols) > 0 || len(r.Hang) > 0 {
 		fmt.Printf("VIOLATION property=%s replay=%s\n", v.Property, path)
 		return 1
 	}
